@@ -62,7 +62,75 @@ _CURRENT = None      # the World receiving recorded __finalize__ calls
 
 # operation -> method names pandas 3.0.6 passes to TableDataFrame.__finalize__ (union over the data paths seen in
 # thorough runs of seeds 0-3); a difference is reported in the evidence notes, it is not an alarm
-FINALIZE_TABLE = {}
+FINALIZE_TABLE = {
+    "T": ["transpose"],
+    "abs": ["None", "take"],
+    "add_plain": ["None", "take"],
+    "add_self": ["None", "take"],
+    "apply_identity": ["apply", "copy"],
+    "apply_rows": ["apply", "copy", "transpose"],
+    "assign_existing": ["copy"],
+    "assign_new": ["copy"],
+    "assign_timedelta": ["copy"],
+    "astype": ["astype", "copy"],
+    "astype_str": ["astype"],
+    "cols": ["take"],
+    "cols_none": ["take"],
+    "concat_clash": ["concat"],
+    "concat_cols": ["concat"],
+    "concat_cols_dup": ["concat"],
+    "concat_plain_second": ["concat"],
+    "concat_rows": ["concat"],
+    "concat_rows_3": ["concat"],
+    "concat_rows_mixed": ["concat"],
+    "copy": ["copy"],
+    "copy_shallow": ["copy"],
+    "cumsum": ["cumsum", "take"],
+    "describe": ["None"],
+    "dot": ["copy", "transpose"],
+    "drop_cols": ["None"],
+    "drop_rows": ["None"],
+    "ewm.mean": [],
+    "expanding.sum": [],
+    "fillna": ["fillna"],
+    "groupby.cumsum": ["None"],
+    "groupby_sum": ["None", "groupby"],
+    "gt": ["None", "take"],
+    "head": ["None", "copy"],
+    "iloc_empty": ["None"],
+    "iloc_rc": ["copy", "take"],
+    "iloc_rows": ["None"],
+    "isna": ["isna"],
+    "join": ["None", "concat", "merge"],
+    "loc_cols": ["None", "copy"],
+    "loc_rows": ["None"],
+    "map_bool": ["apply", "copy", "map"],
+    "map_identity": ["apply", "copy", "map"],
+    "matmul": ["copy", "transpose"],
+    "melt": ["copy", "melt"],
+    "merge_clash": ["None", "concat", "copy", "merge"],
+    "merge_fn": ["None", "concat", "copy", "merge"],
+    "merge_key": ["None", "concat", "copy", "merge"],
+    "mul_scalar": ["None", "take"],
+    "np_exp": ["None", "take"],
+    "reindex_cols": ["None", "reindex"],
+    "reindex_newrow": ["None", "reindex"],
+    "reindex_rows": ["None", "reindex"],
+    "rename_cols": ["copy", "rename"],
+    "rename_index": ["copy", "rename"],
+    "replace": ["copy", "replace"],
+    "reset_index": ["copy"],
+    "rolling.sum": [],
+    "round": ["round"],
+    "rows_bool": ["copy", "take"],
+    "rows_slice": ["None"],
+    "rsub_scalar": ["None", "take"],
+    "set_index": ["copy"],
+    "sort_index": ["copy", "sort_index"],
+    "sort_values": ["copy", "sort_values"],
+    "take_cols": ["take"],
+    "take_rows": ["copy", "take"],
+}
 
 
 def tok(label):
